@@ -297,6 +297,9 @@ def run_case(c):
             if var == 'spin_molecular':
                 Lh = min(Lh, 3)
             t, v = H.sym_tkin_vint(rng, Lh)
+            if rng.random() < 0.5:
+                # coefficient tensors without any index symmetry (the constructors symmetrize copies themselves)
+                t = rng.normal(size=(Lh, Lh)); v = rng.normal(size=(Lh, Lh, Lh, Lh))
             ops = {'tkin': t, 'vint': v}
             if var == 'spin_molecular':
                 fn = 'spin_molecular_hamiltonian_mpo'
@@ -496,6 +499,20 @@ def run_case(c):
                                     signature='OpGraph.__init__:shares_state'))
         except Exception as e:      # noqa: BLE001
             k.fails.append(dict(clause='shares_state', detail=f'two graphs built from the same argument lists: {type(e).__name__}: {e}', signature='OpGraph.__init__:shares_state'))
+        # automaton nodes built from caller-owned edge-id lists: connecting an edge in one automaton must not reach the lists or a second automaton
+        try:
+            from pytenet.autop import AutOp, AutOpNode, AutOpEdge
+            a_in = []; a_out = []
+            def build_aut():
+                au = AutOp([AutOpNode(0, a_in, a_out, 0), AutOpNode(1, [], [], 0)], [], [0, 1])
+                return au
+            au1, au2 = build_aut(), build_aut()
+            au1.add_connect_edge(AutOpEdge(0, [0, 1], [(1, 1.0)]))
+            if a_in != [] or a_out != [] or list(au2.nodes[0].eids[0]) != [] or list(au2.nodes[0].eids[1]) != []:
+                k.fails.append(dict(clause='shares_state', detail='AutOpNode.__init__ keeps the caller\'s edge-id lists: add_connect_edge on one automaton changed '
+                                    f'the argument lists ({a_in}, {a_out}) or a second automaton built from them', signature='AutOpNode.__init__:shares_state'))
+        except Exception as e:      # noqa: BLE001
+            k.fails.append(dict(clause='shares_state', detail=f'two automata built from the same argument lists: {type(e).__name__}: {e}', signature='AutOpNode.__init__:shares_state'))
         # edges as accumulators: an edge without operators takes up two others one after the other; the added edges stay as they were
         try:
             from pytenet.opgraph import OpGraphEdge
